@@ -2,7 +2,7 @@
 from e2 import E2
 from e1 import E1
 FILES = ['src/compression/snappy.c', 'src/compression/lz4.c', 'src/compression/gzip.c', 'src/compression/zstd.c', 'src/writer/page_writer.c']
-BUDGET = {'quick': 1500, 'thorough': 3600}
+BUDGET = {'quick': 840, 'thorough': 3600}
 H = 'harness/e2/c09_codec.c'
 CN = {0: 'snappy', 1: 'lz4'}
 REF = ['ref_snappy.c', 'ref_lz4.c', 'ref_rle.c']
